@@ -59,4 +59,47 @@ func (*CodeRecorderResponseWriter).Reset
 func (*CodeRecorderResponseWriter).Code
   requires w != nil
   ensures code == w.code
+
+// LogMiddleware (property C20), one request, sequential view.  sameRequest:
+// what the wrapped handler can observe of a request, apart from its context.
+spec fn sameRequest(a *http.Request, b *http.Request) bool =
+  sameView(a.Method, b.Method) && a.URL == b.URL && sameView(a.Host, b.Host) && a.Header == b.Header && a.Body == b.Body &&
+  sameView(a.RemoteAddr, b.RemoteAddr) && sameView(a.RequestURI, b.RequestURI)
+  inline
+
+func CopyRequestTo
+  requires dst != nil && src != nil && ctx != nil
+  modifies *dst
+  ensures same_request: sameRequest(dst, src)
+
+// Assumed, not verified: the pooled slice has room for the four attributes
+// (slices of that length are what the pool's constructor makes).
+func (*LogMiddleware).attrsSlicePtr
+  trusted
+  requires mw != nil && r != nil
+  modifies allof("[]slog.Attr")
+  ensures attrsPtr != nil
+
+func (*LogMiddleware).logFinished
+  logged
+  requires mw != nil && l != nil && rw != nil
+
+// The handler closure of Wrap: the wrapped handler runs exactly once, on the
+// pooled recorder reset to this request's writer and on a copy of this
+// request; the "finished" record is written while the recorder still belongs
+// to this request - before it goes back to the pool; every pooled object is
+// returned exactly once.
+func (*LogMiddleware).Wrap$1
+  requires mw != nil && mw.attrPool != nil && mw.reqPool != nil && mw.rwPool != nil && mw.logger != nil && h != nil && r != nil && w != nil
+  // the pooled objects are written; nothing else is
+  modifies allof("CodeRecorderResponseWriter"), allof("http.Request"), allof("[]slog.Attr")
+  ensures handler_once: calls("net/http.Handler.ServeHTTP") == 1 && callarg("net/http.Handler.ServeHTTP", 0) == h
+  ensures own_writer: typeis(callarg("net/http.Handler.ServeHTTP", 1), "*CodeRecorderResponseWriter") &&
+    as(callarg("net/http.Handler.ServeHTTP", 1), "*CodeRecorderResponseWriter").rw == w
+  ensures own_request: sameRequest(callarg("net/http.Handler.ServeHTTP", 2), r)
+  ensures finished_logged_once: calls("httputil.(*LogMiddleware).logFinished") == 1 &&
+    callarg("httputil.(*LogMiddleware).logFinished", 3) == as(callarg("net/http.Handler.ServeHTTP", 1), "*CodeRecorderResponseWriter")
+  ensures finished_before_recycling: events() >= 4 && evis(events() - 4, "httputil.(*LogMiddleware).logFinished") &&
+    evis(events() - 3, "syncutil.(*Pool).Put") && evis(events() - 2, "syncutil.(*Pool).Put") && evis(events() - 1, "syncutil.(*Pool).Put")
+  ensures three_objects_returned: calls("syncutil.(*Pool).Put") == 3 && calls("syncutil.(*Pool).Get") == 2
 @*/
